@@ -5,30 +5,25 @@ from pyvc.registry import register
 
 NUMBA = "groupby_lib/groupby/numba.py"; EMAS = "groupby_lib/emas.py"; FACT = "groupby_lib/groupby/factorization.py"
 
+from contracts import specs as SPEC
 isn = f_isnan
 lt = lambda a, b: f_cmp(lambda x, y: x < y, a, b)
 fadd = lambda a, b: f_bin(lambda x, y: x + y, a, b)
-def _pick(better):
-    return (lambda a, v, c: z3.If(isn(v), a, z3.If(c == 0, v, z3.If(better(v, a), v, a)))), (lambda a, v, c: z3.If(isn(v), c, c + 1))
-SF = {"same": lambda a, b: a == b}
-SF["step_nanmin_acc"], SF["step_nanmin_cnt"] = _pick(lambda v, a: lt(v, a))
-SF["step_nanmax_acc"], SF["step_nanmax_cnt"] = _pick(lambda v, a: lt(a, v))
-SF["step_first_acc"], SF["step_first_cnt"] = _pick(lambda v, a: z3.BoolVal(False))
-SF["step_nansum_acc"] = lambda a, v, c: z3.If(isn(v), a, z3.If(c == 0, v, fadd(a, v))); SF["step_nansum_cnt"] = lambda a, v, c: z3.If(isn(v), c, c + 1)
-SF["step_nansum_squares_acc"] = lambda a, v, c: z3.If(isn(v), a, z3.If(c == 0, f_bin(lambda x, y: x * y, v, v), fadd(a, f_bin(lambda x, y: x * y, v, v))))
-SF["step_nansum_squares_cnt"] = SF["step_nansum_cnt"]
-SF["step_sum_acc"] = lambda a, v, c: z3.If(c == 0, v, fadd(a, v)); SF["step_sum_cnt"] = lambda a, v, c: c + 1
-SF["step_last_acc"] = lambda a, v, c: z3.If(isn(v), a, v); SF["step_last_cnt"] = lambda a, v, c: c + 1
-for _fn, (_a, _v, _c) in {"nanmin": ("cur_min", "next_val", "count"), "nanmax": ("cur_max", "next_val", "count"), "first": ("cur_first", "next_val", "count"),
-                          "nansum": ("cur_sum", "next_val", "count"), "nansum_squares": ("cur_sum", "next_val", "count"), "sum": ("cur_sum", "next_val", "count"),
-                          "last": ("cur_last", "next_val", "count")}.items():
-    register(NUMBA, f"ScalarFuncs.{_fn}", "float", {_a: "float", _v: "float", _c: "int"},
-             {"requires": [f"{_c} >= 0"], "ensures": [f"same(result0, step_{_fn}_acc({_a}, {_v}, {_c}))", f"result1 == step_{_fn}_cnt({_a}, {_v}, {_c})"]},
-             specs=SF, props=("C01", "C04", "C08"))
-for _fn, _first in {"nancount": "cur_count", "count": "cur_size"}.items():
-    register(NUMBA, f"ScalarFuncs.{_fn}", "float", {_first: "int", "next_val": "float", "count": "int"},
-             {"requires": ["count >= 0"], "ensures": ["result0 == result1", ("result1 == ite(isnanv(next_val), count, count + 1)" if _fn == "nancount" else "result1 == count + 1")]},
-             specs={"isnanv": lambda f: f_isnan(f)}, props=("C01", "C04", "C08"))
+# ----------------------------------------------------------------------------- ScalarFuncs.X computes step_X (loop-free; per value algebra)
+_SF_ARGS = {"nanmin": "cur_min", "nanmax": "cur_max", "min": "cur_max", "max": "cur_max", "first": "cur_first", "last": "cur_last", "nansum": "cur_sum", "nansum_squares": "cur_sum", "sum": "cur_sum"}
+for _vk in ("float", "int", "bool"):
+    _S = SPEC.steps(_vk); _sf = {"same": lambda a, b: a == b}
+    for _fn, (_fa, _fc) in _S.items(): _sf[f"step_{_fn}_acc"] = _fa; _sf[f"step_{_fn}_cnt"] = _fc
+    for _fn in _S:
+        _a = _SF_ARGS[_fn]
+        register(NUMBA, f"ScalarFuncs.{_fn}", _vk, {_a: _vk, "next_val": _vk, "count": "int"},
+                 {"requires": ["count >= 0"], "ensures": [f"same(result0, step_{_fn}_acc({_a}, next_val, count))", f"result1 == step_{_fn}_cnt({_a}, next_val, count)"]},
+                 specs=_sf, props=("C01", "C04", "C08", "C12"))
+    _nul = SPEC.ALG[_vk]["isnull"]
+    for _fn, _first in {"nancount": "cur_count", "count": "cur_size"}.items():
+        register(NUMBA, f"ScalarFuncs.{_fn}", _vk, {_first: "int", "next_val": _vk, "count": "int"},
+                 {"requires": ["count >= 0"], "ensures": ["result0 == result1", ("result1 == ite(isnullv(next_val), count, count + 1)" if _fn == "nancount" else "result1 == count + 1")]},
+                 specs={"isnullv": _nul}, props=("C01", "C04", "C08"))
 
 stepA = z3.Function("STEP_acc", V, V, I, V); stepC = z3.Function("STEP_cnt", V, V, I, I)
 FA = z3.Function("FA", I, I, V); FC = z3.Function("FC", I, I, I)
@@ -202,7 +197,9 @@ for _kind, _dt in (("float", "float64"), ("int", "int64")):
 Nk = z3.Function("Nk", I, I, R); Dk = z3.Function("Dk", I, I, R); LastOut = z3.Function("LastOut", I, I, F); OutF = z3.Function("OutF", I, F)
 EMA_SPECS = {"Nk": Nk, "Dk": Dk, "LastOut": LastOut, "OutF": OutF, "fval": lambda f: F.val(f), "mkfin": lambda r: F.Fin(r), "isnan": lambda f: F.is_NaN(f), "NaN": lambda: F.NaN}
 def _ema_contract(masked):
-    valid = "(not isnan(values[_it0])" + (" and mask[_it0])" if masked else ")")
+    # selected(t): the row takes part at all (C05: an unselected row must behave as if it had been filtered out: no decay, no state change);
+    # valid(t): selected and non-null value. A selected row with a null value still counts as an elapsed group row (decay), as C10 states.
+    sel = "mask[_it0]" if masked else "True"; valid = f"({sel} and not isnan(values[_it0]))"; K = "group_key[_it0]"
     return {"requires": ["len(values) == len(group_key)", "ngroups >= 0", "not isnan(alpha)", "fval(alpha) > 0", "fval(alpha) <= 1"] + (["len(mask) == len(group_key)"] if masked else []) + [
                          # what callers pass: null keys are -1
                          "forall(r, 0, len(group_key), group_key[r] < ngroups and group_key[r] >= -1)",
@@ -213,10 +210,10 @@ def _ema_contract(masked):
                               "forall(q, 0, ngroups, residuals[q] == mkfin(Nk(q, _it0)) and residual_weights[q] == mkfin(Dk(q, _it0)) and last_seen[q] == LastOut(q, _it0) and Dk(q, _it0) >= 0)",
                               "forall(r, 0, _it0, implies(group_key[r] >= 0, out[r] == OutF(r)))",
                               "forall(r, 0, _it0, implies(group_key[r] < 0, isnan(out[r])))"],
-                "unfold": [f"forall(q, 0, ngroups, Nk(q, _it0 + 1) == ite(group_key[_it0] == q, (1 - fval(alpha)) * (Nk(q, _it0) + ite({valid}, fval(values[_it0]), 0)), Nk(q, _it0))"
-                           f" and Dk(q, _it0 + 1) == ite(group_key[_it0] == q, (1 - fval(alpha)) * (Dk(q, _it0) + ite({valid}, 1, 0)), Dk(q, _it0))"
-                           " and LastOut(q, _it0 + 1) == ite(group_key[_it0] == q, OutF(_it0), LastOut(q, _it0)))",
-                           f"implies(group_key[_it0] >= 0, OutF(_it0) == ite({valid}, mkfin((fval(values[_it0]) + Nk(group_key[_it0], _it0)) / (1 + Dk(group_key[_it0], _it0))), LastOut(group_key[_it0], _it0)))"]}},
+                "unfold": [f"forall(q, 0, ngroups, Nk(q, _it0 + 1) == ite({K} == q and {sel}, (1 - fval(alpha)) * (Nk(q, _it0) + ite({valid}, fval(values[_it0]), 0)), Nk(q, _it0))"
+                           f" and Dk(q, _it0 + 1) == ite({K} == q and {sel}, (1 - fval(alpha)) * (Dk(q, _it0) + ite({valid}, 1, 0)), Dk(q, _it0))"
+                           f" and LastOut(q, _it0 + 1) == ite({K} == q, OutF(_it0), LastOut(q, _it0)))",
+                           f"implies({K} >= 0, OutF(_it0) == ite({valid}, mkfin((fval(values[_it0]) + Nk({K}, _it0)) / (1 + Dk({K}, _it0))), LastOut({K}, _it0)))"]}},
             "ensures": ["forall(r, 0, len(group_key), implies(group_key[r] >= 0, result[r] == OutF(r)))", "forall(r, 0, len(group_key), implies(group_key[r] < 0, isnan(result[r])))"]}
 for _m in (False, True):
     register(EMAS, "_ema_grouped", f"float,mask={'bool' if _m else 'None'}", {"group_key": "arr:int:int64", "values": "arr:float:float64", "alpha": "float", "ngroups": "int", "mask": "arr:bool:bool" if _m else "none"},
@@ -357,14 +354,43 @@ for _vk, _dt in (("float", "float64"), ("int", "int64")):
     register(FACT, "_monotonic_factorization", f"{_vk},chunked", {"arr_list": f"chunks:{_vk}:{_dt}", "total_len": "int"}, _mono_contract(_vk), specs=_sp, setup=_late_chunkarr,
              props=("C02", "C06", "C03"), lemma_deps=("L-ps-mono",))
 
-# ----------------------------------------------------------------------------- reduce_array_pair (generic reducer)
-for _cn, _ct, _cexpr in (("counts=None", "none", "1"), ("counts=array", "arr:int:int64", "counts[j]")):
-    register(NUMBA, "reduce_array_pair", f"generic,{_cn}", {"x": "arr:opaque:V", "y": "arr:opaque:V", "reducer": "step:STEP", "counts": _ct},
-             {"requires": ["len(y) == len(x)"] + (["len(counts) == len(x)"] if _ct != "none" else []),
-              "frozen": ["x", "y"] + (["counts"] if _ct != "none" else []),
-              "loops": {0: {"iter": "nb.prange(len(x))", "invariant": ["len(out) == len(x)", f"forall(j, 0, _it0, out[j] == STEP_acc(x[j], y[j], {_cexpr}))", "forall(j, _it0, len(x), out[j] == x[j])"]}},
-              "ensures": ["len(result) == len(x)", f"forall(j, 0, len(x), result[j] == STEP_acc(x[j], y[j], {_cexpr}))"]},
-             specs={"STEP_acc": stepA, "STEP_cnt": stepC}, props=("C03", "C04"))
+# ----------------------------------------------------------------------------- reduce_array_pair (generic reducer) and combine_chunk_results_for_factorized_key
+# out[j] = x[j] where the right partial is empty (y_counts[j] == 0), else reducer(x[j], y[j], count of the left partial)[0];  modifies nothing;  race-free (prange)
+def _rap_contract(counts_given, ycounts_given):
+    cnt = "counts[j]" if counts_given else "1"
+    val = f"(x[j] if y_counts[j] == 0 else STEP_acc(x[j], y[j], {cnt}))" if ycounts_given else f"STEP_acc(x[j], y[j], {cnt})"
+    return {"requires": ["len(y) == len(x)"] + (["len(counts) == len(x)"] if counts_given else []) + (["len(y_counts) == len(x)"] if ycounts_given else []),
+            "frozen": ["x", "y"] + (["counts"] if counts_given else []) + (["y_counts"] if ycounts_given else []),
+            "loops": {0: {"iter": "nb.prange(len(x))", "invariant": ["len(out) == len(x)", f"forall(j, 0, _it0, out[j] == {val})", "forall(j, _it0, len(x), out[j] == x[j])"]}},
+            "ensures": ["len(result) == len(x)", f"forall(j, 0, len(x), result[j] == {val})"]}
+for _c in (False, True):
+    for _y in (False, True):
+        register(NUMBA, "reduce_array_pair", f"generic,counts={'array' if _c else 'None'},y_counts={'array' if _y else 'None'}",
+                 {"x": "arr:opaque:V", "y": "arr:opaque:V", "reducer": "step:STEP", "counts": "arr:int:int64" if _c else "none", "y_counts": "arr:int:int64" if _y else "none"},
+                 _rap_contract(_c, _y), specs={"STEP_acc": stepA, "STEP_cnt": stepC}, props=("C03", "C04", "C12"))
+class _RapCallee:
+    """the contract a CALLER of reduce_array_pair sees: exactly the requires/ensures proved above for the instantiation selected by which optionals are None"""
+    params = ["x", "y", "reducer", "counts", "y_counts"]
+    def __call__(self, env):
+        c = env.get("counts") is not None and env["counts"].kind != "none"; y = env.get("y_counts") is not None and env["y_counts"].kind != "none"
+        k = _rap_contract(c, y)
+        return {"params": self.params, "defaults": {}, "returns": ["arr:opaque:V"], "result_len": ["len(x)"], "requires": k["requires"], "ensures": k["ensures"]}
+# combine_chunk_results_for_factorized_key (Python loop around the kernel; counts given): verified against the CONTRACT of reduce_array_pair.
+# MA/MC(k, b): merged partial of group k after the first b blocks:  Merge(s, (a, c)) = s if c == 0 else (STEP(s.acc, a, s.cnt).acc, s.cnt + c)  - the merge of L-merge.
+MA = z3.Function("MA", I, I, V); MC = z3.Function("MC", I, I, I); Gc = z3.Int("G")
+def _late_combine(eng):
+    eng.specs["blkval"] = lambda b, k: z3.Select(eng.specs["chunk_chunks"](b), k); eng.specs["blkcnt"] = lambda b, k: z3.Select(eng.specs["chunk_counts"](b), k)
+register(NUMBA, "combine_chunk_results_for_factorized_key", "generic,counts=list of arrays",
+         {"reduce_func_name": "step:STEP", "chunks": "chunks:opaque:V", "counts": "chunks:int:int64"},
+         {"requires": ["len(chunks) >= 1", "len(counts) == len(chunks)", "G() >= 0", "forall(b, 0, len(chunks), clen_chunks(b) == G() and clen_counts(b) == G())",
+                       "forall(k, 0, G(), MA(k, 1) == blkval(0, k) and MC(k, 1) == blkcnt(0, k))",
+                       "forall(b, 1, len(chunks), forall(k, 0, G(), MA(k, b + 1) == ite(blkcnt(b, k) == 0, MA(k, b), STEP_acc(MA(k, b), blkval(b, k), MC(k, b))) and MC(k, b + 1) == MC(k, b) + blkcnt(b, k)))"],
+          "loops": {0: {"iter": "zip(chunks[1:], counts[1:])", "havoc_arrays": ["combined", "combined_count"],
+                        "invariant": ["len(combined) == G() and len(combined_count) == G()", "forall(k, 0, G(), combined[k] == MA(k, 1 + _it0) and combined_count[k] == MC(k, 1 + _it0))"],
+                        "lemmas": ["forall(k, 0, G(), chunk[k] == blkval(1 + _it0, k) and count[k] == blkcnt(1 + _it0, k))"]}},
+          "ensures": ["len(result0) == G() and len(result1) == G()", "forall(k, 0, G(), result0[k] == MA(k, len(chunks)) and result1[k] == MC(k, len(chunks)))"]},
+         specs={"STEP_acc": stepA, "STEP_cnt": stepC, "MA": MA, "MC": MC, "G": lambda: Gc, "blkval": None, "blkcnt": None}, setup=_late_combine,
+         callees={"reduce_array_pair": _RapCallee()}, props=("C03", "C04", "C12"), lemma_deps=("L-merge", "L-merge-step"))
 
 # ----------------------------------------------------------------------------- _rolling_shift_or_diff_1d (shift on an OPAQUE value sort, diff on floats; mask / no mask)
 # shift: the value sort is opaque (no arithmetic exists on it), so the postcondition "out[r] is Hist(k, A - w)" says the result is exactly an input element
@@ -421,52 +447,146 @@ for _m in (False, True):
                  {"group_key": "arr:int:int64", "ngroups": "int", "n": "int", "mask": "arr:bool:bool" if _m else "none", "forward": f"const:{_fw}"}, _firstn_contract(_m, _fw),
                  specs={"Cnt": Cnt, "minw": lambda A, w: z3.If(A < w, A, w)}, props=("C15", "C05", "C06"), lemma_deps=("L-cnt-bound",))
 
-# ----------------------------------------------------------------------------- nanops._nb_reduce (float, skipna, no initial value) against the contract of _get_first_non_null
-NANOPS = "groupby_lib/nanops.py"
+# ----------------------------------------------------------------------------- nanops._nb_reduce / util._get_first_non_null / NumbaReductionOps / _nb_dot / arr_is_null
+NANOPS = "groupby_lib/nanops.py"; UTIL = "groupby_lib/util.py"
 OPF = z3.Function("OPF", F, F, F); AccF = z3.Function("AccF", I, F); HasF = z3.Function("HasF", I, B)
-_GFNN = {"_get_first_non_null": {"params": ["arr"], "returns": ["int", "float"], "requires": [],
+OPI = z3.Function("OPI", I, I, I); AccI = z3.Function("AccI", I, I)
+def _gfnn(kind):
+    nul = "isnullf" ; return {"_get_first_non_null": {"params": ["arr"], "returns": ["int", kind], "requires": [],
          "ensures": ["result0 == -1 or (0 <= result0 and result0 < len(arr))",
                      "implies(result0 == -1, forall(l, 0, len(arr), isnullf(arr[l])))",
                      "implies(result0 >= 0, not isnullf(arr[result0]) and result1 == arr[result0] and forall(l, 0, result0, isnullf(arr[l])))"]}}
-register(NANOPS, "_nb_reduce", "float,skipna,no initial value", {"reduce_func": "bin:OPF", "arr": "arr:float:float64", "skipna": "const:True", "initial_value": "none"},
-         {"requires": ["len(arr) >= 1", "not HasF(0)",
-                       "forall(j, 0, len(arr), HasF(j + 1) == (HasF(j) or not isnullf(arr[j])))",
-                       "forall(j, 0, len(arr), AccF(j + 1) == ite(isnullf(arr[j]), AccF(j), ite(HasF(j), OPF(AccF(j), arr[j]), arr[j])))",
-                       # L-has (proved separately by induction): HasF(j) iff some non-null before j
-                       "forall(j, 0, len(arr) + 1, HasF(j) == exists(l, 0, j, not isnullf(arr[l])))"],
-          "frozen": ["arr"],
-          "loops": {0: {"iter": "range(start, len(arr))", "invariant": ["1 <= start and start <= len(arr)", "HasF(start + _it0)", "out == AccF(start + _it0)"]}},
-          "ensures": ["ite(HasF(len(arr)), result == AccF(len(arr)), isnullf(result))"]},
-         specs={"OPF": OPF, "AccF": AccF, "HasF": HasF, "isnullf": lambda f: F.is_NaN(f)}, callees=_GFNN, props=("C20",))
+_NBR_SPEC_F = {"OPF": OPF, "AccF": AccF, "HasF": HasF, "isnullf": lambda f: F.is_NaN(f)}
+_NBR_SPEC_I = {"OPF": OPI, "AccF": AccI, "HasF": HasF, "isnullf": lambda x: x == MIN_INT}
+# (a) skipna, no initial value: fold of the reducer over the non-null elements in order; all null -> a null (arr[0]); requires a non-empty array
+for _vk, _dt, _sp in (("float", "float64", _NBR_SPEC_F), ("int", "int64", _NBR_SPEC_I)):
+    register(NANOPS, "_nb_reduce", f"{_vk},skipna,no initial value", {"reduce_func": "bin:OPF", "arr": f"arr:{_vk}:{_dt}", "skipna": "const:True", "initial_value": "none"},
+             {"requires": ["len(arr) >= 1", "not HasF(0)",
+                           "forall(j, 0, len(arr), HasF(j + 1) == (HasF(j) or not isnullf(arr[j])))",
+                           "forall(j, 0, len(arr), AccF(j + 1) == ite(isnullf(arr[j]), AccF(j), ite(HasF(j), OPF(AccF(j), arr[j]), arr[j])))",
+                           # L-has (proved separately by induction): HasF(j) iff some non-null before j
+                           "forall(j, 0, len(arr) + 1, HasF(j) == exists(l, 0, j, not isnullf(arr[l])))"],
+              "frozen": ["arr"],
+              "loops": {0: {"iter": "range(start, len(arr))", "invariant": ["1 <= start and start <= len(arr)", "HasF(start + _it0)", "out == AccF(start + _it0)"]}},
+              "ensures": ["ite(HasF(len(arr)), result == AccF(len(arr)), isnullf(result))"]},
+             specs=_sp, callees=_gfnn(_vk), props=("C20",), lemma_deps=("L-has",))
+# (b) skipna with an initial value (count uses this): fold from the initial value over the non-null elements; any length
+register(NANOPS, "_nb_reduce", "float,skipna,initial value", {"reduce_func": "bin:OPF", "arr": "arr:float:float64", "skipna": "const:True", "initial_value": "float"},
+         {"requires": ["AccF(0) == initial_value", "forall(j, 0, len(arr), AccF(j + 1) == ite(isnullf(arr[j]), AccF(j), OPF(AccF(j), arr[j])))"], "frozen": ["arr"],
+          "loops": {0: {"iter": "range(start, len(arr))", "invariant": ["start == 0", "out == AccF(_it0)"]}}, "ensures": ["result == AccF(len(arr))"]},
+         specs=_NBR_SPEC_F, props=("C20",))
+# (c) no null skipping: a null first element is returned as is, otherwise the plain left fold; requires a non-empty array when no initial value is given
+register(NANOPS, "_nb_reduce", "float,no skipna,no initial value", {"reduce_func": "bin:OPF", "arr": "arr:float:float64", "skipna": "const:False", "initial_value": "none"},
+         {"requires": ["len(arr) >= 1", "AccF(1) == arr[0]", "forall(j, 1, len(arr), AccF(j + 1) == OPF(AccF(j), arr[j]))"], "frozen": ["arr"],
+          "loops": {1: {"iter": "range(start, len(arr))", "invariant": ["start == 1", "out == AccF(1 + _it1)"]}},
+          "ensures": ["ite(isnullf(arr[0]), result == arr[0], result == AccF(len(arr)))"]}, specs=_NBR_SPEC_F, props=("C20",))
+register(NANOPS, "_nb_reduce", "float,no skipna,initial value", {"reduce_func": "bin:OPF", "arr": "arr:float:float64", "skipna": "const:False", "initial_value": "float"},
+         {"requires": ["AccF(0) == initial_value", "forall(j, 0, len(arr), AccF(j + 1) == OPF(AccF(j), arr[j]))"], "frozen": ["arr"],
+          "loops": {1: {"iter": "range(start, len(arr))", "invariant": ["start == 0", "out == AccF(_it1)"]}}, "ensures": ["result == AccF(len(arr))"]}, specs=_NBR_SPEC_F, props=("C20",))
 
-# ----------------------------------------------------------------------------- core.GroupBy._build_group_sorted_indexer_numba (counting sort; key_map None, mask None)
+# _get_first_non_null itself (float version = the module-level function; int version = first nested def of the numba overload)
+_GF_ENS = ["result0 == -1 or (0 <= result0 and result0 < len(arr))", "implies(result0 == -1, forall(l, 0, len(arr), isnullf(arr[l])))",
+           "implies(result0 >= 0, not isnullf(arr[result0]) and result1 == arr[result0] and forall(l, 0, result0, isnullf(arr[l])))"]
+register(UTIL, "_get_first_non_null", "float", {"arr": "arr:float:float64"},
+         {"frozen": ["arr"], "loops": {0: {"iter": "enumerate(arr)", "invariant": ["forall(l, 0, _it0, isnullf(arr[l]))"]}}, "ensures": _GF_ENS}, specs=_NBR_SPEC_F, props=("C20",))
+register(UTIL, "jit_get_first_non_null.f#0", "int", {"arr": "arr:int:int64"},
+         {"frozen": ["arr"], "loops": {0: {"iter": "enumerate(arr)", "invariant": ["forall(l, 0, _it0, isnullf(arr[l]))"]}}, "ensures": _GF_ENS}, specs=_NBR_SPEC_I, props=("C20",))
+
+# NumbaReductionOps.X (loop-free): the binary reducers nanops folds with
+_fle = lambda a, b: f_cmp(lambda x, y: x <= y, a, b); _fge = lambda a, b: f_cmp(lambda x, y: x >= y, a, b)
+_NRO = {"count": "result == x + 1", "min": "result == (x if fle(x, y) else y)", "max": "result == (x if fge(x, y) else y)", "sum": "result == fadd(x, y)", "first": "result == x",
+        "first_skipna": "result == (y if isnullf(x) else x)", "last": "result == y", "last_skipna": "result == (x if isnullf(y) else y)", "sum_square": "result == fadd(x, fmul(y, y))"}
+for _nm, _ens in _NRO.items():
+    register(UTIL, f"NumbaReductionOps.{_nm}", "float" if _nm != "count" else "int,float", {"x": "int" if _nm == "count" else "float", "y": "float"},
+             {"ensures": [_ens]}, specs={"fle": _fle, "fge": _fge, "fadd": fadd, "fmul": lambda a, b: f_bin(lambda x, y: x * y, a, b), "isnullf": lambda f: F.is_NaN(f)}, props=("C20",))
+# consequences used by C20: min/max of two non-null floats is one of them and bounds both (stated as extra postconditions)
+register(UTIL, "NumbaReductionOps.min", "float,characterisation", {"x": "float", "y": "float"},
+         {"requires": ["not isnullf(x)", "not isnullf(y)"], "ensures": ["(result == x or result == y) and fle(result, x) and fle(result, y)"]}, specs={"fle": _fle, "isnullf": lambda f: F.is_NaN(f)}, props=("C20",))
+register(UTIL, "NumbaReductionOps.max", "float,characterisation", {"x": "float", "y": "float"},
+         {"requires": ["not isnullf(x)", "not isnullf(y)"], "ensures": ["(result == x or result == y) and fge(result, x) and fge(result, y)"]}, specs={"fge": _fge, "isnullf": lambda f: F.is_NaN(f)}, props=("C20",))
+
+# _nb_dot: out[row] = out0[row] + sum_col a[col][row] * b[col]   (DOT(row, c) = partial sum over the first c columns); race-free: iteration `row` touches only out[row]
+DOT = z3.Function("DOT", I, I, F); Acol = z3.Function("Acol", I, I, F); Bv = z3.Function("Bv", I, F)
+def _late_chunk_a(eng): eng.specs["chunkval_a"] = lambda c, p: z3.Select(eng.specs["chunk_a"](c), p)
+register(UTIL, "_nb_dot", "float", {"a": "chunks:float:float64", "b": "arr:float:float64", "out": "arr:float:float64"},
+         {"requires": ["len(a) >= 1", "len(b) <= len(a)", "len(out) == clen_a(0)", "forall(c, 0, len(a), clen_a(c) == clen_a(0))",
+                       "forall(c, 0, len(a), forall(p, 0, clen_a(0), chunkval_a(c, p) == Acol(c, p)))", "forall(c, 0, len(b), b[c] == Bv(c))",
+                       "forall(r, 0, len(out), DOT(r, 0) == out[r])",
+                       "forall(r, 0, len(out), forall(c, 0, len(b), DOT(r, c + 1) == fadd(DOT(r, c), fmul(Acol(c, r), Bv(c)))))"],
+          "frozen": ["b"],
+          "loops": {0: {"iter": "nb.prange(len(a[0]))", "invariant": ["forall(r, 0, _it0, out[r] == DOT(r, len(b)))", "forall(r, _it0, len(out), out[r] == DOT(r, 0))"]},
+                    1: {"iter": "nb.prange(len(b))", "invariant": ["forall(r, 0, row, out[r] == DOT(r, len(b)))", "forall(r, row + 1, len(out), out[r] == DOT(r, 0))", "out[row] == DOT(row, _it1)", "0 <= row and row < len(out)"]}},
+          "ensures": ["forall(r, 0, len(out), result[r] == DOT(r, len(b)))"]},
+         specs={"DOT": DOT, "Acol": Acol, "Bv": Bv, "chunkval_a": None, "fadd": fadd, "fmul": lambda a, b: f_bin(lambda x, y: x * y, a, b)}, setup=_late_chunk_a, props=("C20",))
+
+# arr_is_null: out[i] == is_null(arr[i]); race-free
+for _vk, _dt, _nul in (("float", "float64", "isnullf(arr[j])"), ("int", "int64", "arr[j] == MINI()")):
+    register(UTIL, "arr_is_null", _vk, {"arr": f"arr:{_vk}:{_dt}"},
+             {"frozen": ["arr"], "loops": {0: {"iter": "nb.prange(len(arr))", "invariant": ["len(out) == len(arr)", f"forall(j, 0, _it0, out[j] == ({_nul}))"]}},
+              "ensures": ["len(result) == len(arr)", f"forall(j, 0, len(arr), result[j] == ({_nul}))"]}, specs={"isnullf": lambda f: F.is_NaN(f), "MINI": lambda: z3.IntVal(MIN_INT)}, props=("C20", "C12"))
+
+# ----------------------------------------------------------------------------- group_nearby_members: null-key rows keep the -1 marker and touch no per-group state (C06)
+# (the sub-grouping itself is not part of any listed property; what is proved is non-interference: outputs of real rows equal NB(r), a function defined by the
+#  recursion over rows with key >= 0 only, and the per-group state is indexed only by non-negative keys)
+GC = z3.Function("GC", I, I); SeenG = z3.Function("SeenG", I, I, B); LastG = z3.Function("LastG", I, I, F); TrkG = z3.Function("TrkG", I, I, I); NewG = z3.Function("NewG", I, B)
+_K = "group_key[_it0]"
+register(NUMBA, "group_nearby_members", "float values", {"group_key": "arr:int:int64", "values": "arr:float:float64", "max_diff": "float", "n_groups": "int"},
+         {"requires": ["len(values) == len(group_key)", "n_groups >= 0", "forall(r, 0, len(group_key), group_key[r] < n_groups and group_key[r] >= -1)",
+                       "GC(0) == -1", "forall(k, 0, n_groups, not SeenG(k, 0) and TrkG(k, 0) == -1)"],
+          "frozen": ["group_key", "values"], "nonneg_index": ["seen", "last_seen", "group_tracker"],
+          "loops": {0: {"iter": "range(len(group_key))", "invariant": [
+              "group_counter == GC(_it0)", "len(out) == len(group_key)",
+              "forall(k, 0, n_groups, seen[k] == SeenG(k, _it0) and group_tracker[k] == TrkG(k, _it0) and implies(SeenG(k, _it0), last_seen[k] == LastG(k, _it0)))",
+              "forall(r, 0, _it0, implies(group_key[r] < 0, out[r] == -1))", "forall(r, 0, _it0, implies(group_key[r] >= 0, out[r] == TrkG(group_key[r], r + 1)))",
+              "forall(r, _it0, len(out), out[r] == -1)"],
+              "unfold": [f"implies({_K} >= 0, NewG(_it0) == (not SeenG({_K}, _it0) or fgt(fabs(fsub(values[_it0], LastG({_K}, _it0))), max_diff)))",
+                         f"GC(_it0 + 1) == ite({_K} >= 0 and NewG(_it0), GC(_it0) + 1, GC(_it0))",
+                         f"forall(k, 0, n_groups, SeenG(k, _it0 + 1) == (SeenG(k, _it0) or {_K} == k) and LastG(k, _it0 + 1) == ite({_K} == k, values[_it0], LastG(k, _it0))"
+                         f" and TrkG(k, _it0 + 1) == ite({_K} == k and NewG(_it0), GC(_it0) + 1, TrkG(k, _it0)))"]}},
+          "ensures": ["forall(r, 0, len(group_key), implies(group_key[r] < 0, result[r] == -1))", "forall(r, 0, len(group_key), implies(group_key[r] >= 0, result[r] == TrkG(group_key[r], r + 1)))"]},
+         specs={"GC": GC, "SeenG": SeenG, "LastG": LastG, "TrkG": TrkG, "NewG": NewG, "fsub": lambda a, b: f_bin(lambda x, y: x - y, a, b),
+                "fabs": lambda a: z3.If(F.is_NaN(a), F.NaN, F.Fin(z3.If(F.val(a) < 0, -F.val(a), F.val(a)))), "fgt": lambda a, b: f_cmp(lambda x, y: x > y, a, b)}, props=("C06",))
+
+# ----------------------------------------------------------------------------- core.GroupBy._build_group_sorted_indexer_numba (counting sort; key_map / mask optional)
+# XK(r): code of flat row r; MK(r) = key_map[XK(r)] (or XK(r) without a key map): the output slot group of the row; accepted(r) = XK(r) >= 0 and selected.
+# CntK(m, i): accepted rows with MK == m among the first i rows; PS(m): prefix sums of group_counts.  The caller must pass the TRUE counts: group_counts[m] == CntK(m, N).
+# Position q of the output belongs to (GrpOf(q), RankOf(q)); postcondition: indexer[q] is the RankOf(q)-th accepted row of slot group GrpOf(q), i.e. rows are
+# grouped in slot order, ascending inside a group, and every accepted row appears exactly once (a permutation of the accepted rows).
 CORE = "groupby_lib/groupby/core.py"
 PS = z3.Function("PS", I, I); XK = z3.Function("XK", I, I); CntK = z3.Function("CntK", I, I, I); offk = z3.Function("offk", I, I)
 def _late_chunkkey(eng): eng.specs["chunkkey"] = lambda c, p: z3.Select(eng.specs["chunk_group_key_list"](c), p)
 _N = "offk(len(group_key_list))"
-def _cs_main(i):
-    return ["len(indexer) == PS(len(group_counts))", "len(current_pos) == len(group_counts)",
-            f"forall(m, 0, len(group_counts), current_pos[m] == PS(m) + CntK(m, {i}))",
-            f"forall(q, 0, len(indexer), implies(RankOf(q) < CntK(GrpOf(q), {i}), 0 <= indexer[q] and indexer[q] < {i} and XK(indexer[q]) == GrpOf(q) and CntK(GrpOf(q), indexer[q]) == RankOf(q)), trigger=indexer[q])"]
-register(CORE, "GroupBy._build_group_sorted_indexer_numba", "key_map=None,mask=None",
-         {"group_key_list": "chunks:int:int64", "group_counts": "arr:int:int64", "key_map": "none", "mask": "none"},
-         {"requires": ["offk(0) == 0", f"forall(c, 0, len(group_key_list), offk(c + 1) == offk(c) + clen_group_key_list(c) and offk(c + 1) <= {_N} and offk(c) >= 0)",
-                       "forall(c, 0, len(group_key_list), forall(p, 0, clen_group_key_list(c), chunkkey(c, p) == XK(offk(c) + p)))",
-                       f"forall(r, 0, {_N}, XK(r) < len(group_counts))", "PS(0) == 0",
-                       "forall(m, 0, len(group_counts), PS(m + 1) == PS(m) + group_counts[m] and group_counts[m] >= 0 and CntK(m, 0) == 0)",
-                       # what the caller must establish: the counts are the true counts
-                       f"forall(m, 0, len(group_counts), group_counts[m] == CntK(m, {_N}))",
-                       # L-cnt-mono and L-ps-mono (lemmas over the specs, proved separately by induction)
-                       f"forall(m, 0, len(group_counts), forall(r, 0, {_N}, implies(XK(r) == m, CntK(m, r) < CntK(m, {_N})) and CntK(m, r) >= 0))",
-                       "forall(m, 0, len(group_counts), forall(j, m + 1, len(group_counts) + 1, PS(m + 1) <= PS(j)))", "forall(m, 0, len(group_counts) + 1, PS(m) >= 0)",
-                       # position -> (group, rank): definitional, with its inverse as an L lemma instantiated in the loop hint
-                       "forall(q, 0, PS(len(group_counts)), 0 <= GrpOf(q) and GrpOf(q) < len(group_counts) and PS(GrpOf(q)) <= q and q < PS(GrpOf(q) + 1) and RankOf(q) == q - PS(GrpOf(q)))"],
-          "frozen": ["group_counts"], "nonneg_index": ["current_pos", "indexer", "group_starts"],
-          "loops": {0: {"iter": "range(ngroups)", "invariant": ["len(group_starts) == ngroups + 1", "ngroups == len(group_counts)", "forall(m, 0, _it0 + 1, group_starts[m] == PS(m))"]},
-                    1: {"iter": "group_key_list", "invariant": ["i == offk(_it1)", "_it1 <= len(group_key_list)"] + _cs_main("i")},
-                    2: {"iter": "arr", "invariant": ["i == offk(_it1) + _it2", "_it1 < len(group_key_list)", "_it2 <= clen_group_key_list(_it1)"] + _cs_main("i"),
-                        "unfold": ["forall(m, 0, len(group_counts), CntK(m, i + 1) == CntK(m, i) + (1 if XK(i) == m else 0))",
-                                   "implies(XK(i) >= 0, GrpOf(PS(XK(i)) + CntK(XK(i), i)) == XK(i))"], "lemmas": ["k == XK(i)"]}},
-          "ensures": [f"len(result) == PS(len(group_counts))",
-                      f"forall(q, 0, len(result), 0 <= result[q] and result[q] < {_N} and XK(result[q]) == GrpOf(q) and CntK(GrpOf(q), result[q]) == RankOf(q), trigger=result[q])"]},
-         specs={"PS": PS, "XK": XK, "CntK": CntK, "offk": offk, "chunkkey": None, "GrpOf": z3.Function("GrpOf", I, I), "RankOf": z3.Function("RankOf", I, I)}, setup=_late_chunkkey, props=("C02", "C16"))
+def _cs_contract(mapped, masked):
+    MK = (lambda r: f"key_map[XK({r})]") if mapped else (lambda r: f"XK({r})")
+    acc = (lambda r: f"(XK({r}) >= 0 and mask[{r}])") if masked else (lambda r: f"(XK({r}) >= 0)")
+    def main(i):
+        return ["len(indexer) == PS(len(group_counts))", "len(current_pos) == len(group_counts)",
+                f"forall(m, 0, len(group_counts), current_pos[m] == PS(m) + CntK(m, {i}))",
+                f"forall(q, 0, len(indexer), implies(RankOf(q) < CntK(GrpOf(q), {i}), 0 <= indexer[q] and indexer[q] < {i} and {acc('indexer[q]')} and {MK('indexer[q]')} == GrpOf(q) and CntK(GrpOf(q), indexer[q]) == RankOf(q)), trigger=indexer[q])"]
+    return {"requires": ["offk(0) == 0", f"forall(c, 0, len(group_key_list), offk(c + 1) == offk(c) + clen_group_key_list(c) and offk(c + 1) <= {_N} and offk(c) >= 0)",
+                         "forall(c, 0, len(group_key_list), forall(p, 0, clen_group_key_list(c), chunkkey(c, p) == XK(offk(c) + p)))"]
+                        + ([f"len(mask) == {_N}"] if masked else [])
+                        + ([f"forall(r, 0, {_N}, XK(r) < len(key_map))", f"forall(r, 0, {_N}, implies(XK(r) >= 0, 0 <= key_map[XK(r)] and key_map[XK(r)] < len(group_counts)))"] if mapped
+                           else [f"forall(r, 0, {_N}, XK(r) < len(group_counts))"]) + [
+                         "PS(0) == 0", "forall(m, 0, len(group_counts), PS(m + 1) == PS(m) + group_counts[m] and group_counts[m] >= 0 and CntK(m, 0) == 0)",
+                         # what the caller must establish: the counts are the true counts of accepted rows per slot group
+                         f"forall(m, 0, len(group_counts), group_counts[m] == CntK(m, {_N}))",
+                         # L-cnt-mono and L-ps-mono (lemmas over the specs, proved separately by induction)
+                         f"forall(m, 0, len(group_counts), forall(r, 0, {_N}, implies({acc('r')} and {MK('r')} == m, CntK(m, r) < CntK(m, {_N})) and CntK(m, r) >= 0))",
+                         "forall(m, 0, len(group_counts), forall(j, m + 1, len(group_counts) + 1, PS(m + 1) <= PS(j)))", "forall(m, 0, len(group_counts) + 1, PS(m) >= 0)",
+                         # position -> (group, rank): definitional, with its inverse as an L lemma instantiated in the loop hint
+                         "forall(q, 0, PS(len(group_counts)), 0 <= GrpOf(q) and GrpOf(q) < len(group_counts) and PS(GrpOf(q)) <= q and q < PS(GrpOf(q) + 1) and RankOf(q) == q - PS(GrpOf(q)))"],
+            "frozen": ["group_counts"] + (["key_map"] if mapped else []) + (["mask"] if masked else []), "nonneg_index": ["current_pos", "indexer", "group_starts"] + (["key_map"] if mapped else []),
+            "loops": {0: {"iter": "range(ngroups)", "invariant": ["len(group_starts) == ngroups + 1", "ngroups == len(group_counts)", "forall(m, 0, _it0 + 1, group_starts[m] == PS(m))"]},
+                      1: {"iter": "group_key_list", "invariant": ["i == offk(_it1)", "_it1 <= len(group_key_list)"] + main("i")},
+                      2: {"iter": "arr", "invariant": ["i == offk(_it1) + _it2", "_it1 < len(group_key_list)", "_it2 <= clen_group_key_list(_it1)"] + main("i"),
+                          "unfold": [f"forall(m, 0, len(group_counts), CntK(m, i + 1) == CntK(m, i) + (1 if ({acc('i')} and {MK('i')} == m) else 0))",
+                                     f"implies({acc('i')}, GrpOf(PS({MK('i')}) + CntK({MK('i')}, i)) == {MK('i')})"], "lemmas": ["k == XK(i)"]}},
+            "ensures": ["len(result) == PS(len(group_counts))",
+                        f"forall(q, 0, len(result), 0 <= result[q] and result[q] < {_N} and {acc('result[q]')} and {MK('result[q]')} == GrpOf(q) and CntK(GrpOf(q), result[q]) == RankOf(q), trigger=result[q])"]}
+for _mp in (False, True):
+    for _m in (False, True):
+        register(CORE, "GroupBy._build_group_sorted_indexer_numba", f"key_map={'array' if _mp else 'None'},mask={'bool' if _m else 'None'}",
+                 {"group_key_list": "chunks:int:int64", "group_counts": "arr:int:int64", "key_map": "arr:int:int64" if _mp else "none", "mask": "arr:bool:bool" if _m else "none"}, _cs_contract(_mp, _m),
+                 specs={"PS": PS, "XK": XK, "CntK": CntK, "offk": offk, "chunkkey": None, "GrpOf": z3.Function("GrpOf", I, I), "RankOf": z3.Function("RankOf", I, I)}, setup=_late_chunkkey,
+                 props=("C02", "C16", "C05", "C06"), lemma_deps=("L-cnt-mono", "L-ps-mono"))
